@@ -27,7 +27,7 @@ def _decompress(codec, data):
     if codec == "bzip2":
         return bz2.decompress(data)
     if codec == "xz":
-        return lzma.decompress(data)
+        return lzma.decompress(data, format=lzma.FORMAT_XZ)  # the .xz container format, not a legacy .lzma stream
     raise ContainerError(f"codec {codec!r} not available to the reference")
 
 
